@@ -178,6 +178,7 @@ class CqProbeMixin:
             if ";" in self.strip_sql_literals(q):
                 self.violate("C19", "O19.1", f"build_query on {rep} returned more than one statement", rep=rep, op="cq_probe", kind="semicolon")
             if r2[0] != "ok" or r2[1] != q:
-                self.violate("C19", "O19.2", f"two build_query calls on one table return different text on {rep} (probe {tail})", rep=rep, op="cq_probe", tail=tail)
-            out[rep] = _sha(q)
+                kind = "anon_numbering_only" if (r2[0] == "ok" and self.norm_anon(r2[1]) == self.norm_anon(q)) else "text"
+                self.violate("C19", "O19.2", f"two build_query calls on one table return different text on {rep} (probe {tail})", rep=rep, kind=kind, op="cq_probe", tail=tail)
+            out[rep] = _sha(self.norm_anon(q))
         self.emit(step, "ok", out)
